@@ -891,7 +891,7 @@ func (x *vc) evalCall(env *cenv, e *cexpr) Val {
 				}
 				except = not(eq(r, ref))
 			}
-			cs = append(cs, fmt.Sprintf("(forall ((%s Int)) (=> (and (<= 0 %s) (< %s %s) %s) (= (select %s %s) (select %s %s))))", r, r, r, env.old.nextRef, except, cur, r, old, r))
+			cs = append(cs, fmt.Sprintf("(forall ((%s Int)) (=> (and (< 0 %s) (< %s %s) %s) (= (select %s %s) (select %s %s))))", r, r, r, env.old.nextRef, except, cur, r, old, r))
 		}
 		return Val{T: and(cs...), Typ: boolT}
 	case "payload": // payload(x): the pointer held by interface value x (0 for a typed nil pointer)
